@@ -23,27 +23,36 @@ theorem newFormatSpec_fits_v3 (precision exponent verb : Int) (ok : Bool)
     (hp : 0 ≤ precision ∧ I64 precision) (he : I64 exponent) (hs : I64 (precision + exponent) ∧ I64 (6 + exponent)) :
     Gen.V3.newFormatSpecOvf precision ok verb exponent = false := by
   have a : Sqroot.outI64 (-3) = false := by decide
+  have a4 : Sqroot.outI64 (-4) = false := by decide
+  have a6 : Sqroot.outI64 6 = false := by decide
+  have a7 : Sqroot.outI64 7 = false := by decide
   have h1 := outI64_false_of hs.1
   have h2 := outI64_false_of hs.2
   unfold Gen.V3.newFormatSpecOvf Gen.V3.formatSpecForGOvf Gen.V3.bigExponentOvf
-  cases ok <;> simp [a, h1, h2]
+  cases ok <;> simp [a, a4, a6, a7, h1, h2]
 
 theorem newFormatSpec_fits_v1 (precision exponent verb : Int) (ok : Bool)
     (hp : 0 ≤ precision ∧ I64 precision) (he : I64 exponent) (hs : I64 (precision + exponent) ∧ I64 (6 + exponent)) :
     Gen.V1.newFormatSpecOvf precision ok verb exponent = false := by
   have a : Sqroot.outI64 (-3) = false := by decide
+  have a4 : Sqroot.outI64 (-4) = false := by decide
+  have a6 : Sqroot.outI64 6 = false := by decide
+  have a7 : Sqroot.outI64 7 = false := by decide
   have h1 := outI64_false_of hs.1
   have h2 := outI64_false_of hs.2
   unfold Gen.V1.newFormatSpecOvf Gen.V1.bigExponentOvf
-  cases ok <;> simp [a, h1, h2]
+  cases ok <;> simp [a, a4, a6, a7, h1, h2]
 
 theorem newFormatSpec_fits_v2 (precision exponent verb : Int) (ok : Bool)
     (hp : 0 ≤ precision ∧ I64 precision) (he : I64 exponent) (hs : I64 (precision + exponent) ∧ I64 (6 + exponent)) :
     Gen.V2.newFormatSpecOvf precision ok verb exponent = false := by
   have a : Sqroot.outI64 (-3) = false := by decide
+  have a4 : Sqroot.outI64 (-4) = false := by decide
+  have a6 : Sqroot.outI64 6 = false := by decide
+  have a7 : Sqroot.outI64 7 = false := by decide
   have h1 := outI64_false_of hs.1
   have h2 := outI64_false_of hs.2
   unfold Gen.V2.newFormatSpecOvf Gen.V2.bigExponentOvf
-  cases ok <;> simp [a, h1, h2]
+  cases ok <;> simp [a, a4, a6, a7, h1, h2]
 
 end Sqroot.Proofs
